@@ -716,9 +716,10 @@ def inline_helper(body, helper_name, helper_sig, helper_body):
                     if not has_self:
                         continue
                     s0 = i - 2
-                    while s0 - 2 >= 0 and toks[s0 - 1].text == "." and toks[s0 - 2].kind == "ident":
+                    # receiver path: ident(.ident | .tuple-index)*
+                    while s0 - 2 >= 0 and toks[s0 - 1].text == "." and toks[s0 - 2].kind in ("ident", "num"):
                         s0 -= 2
-                    if toks[s0].kind != "ident":
+                    if toks[s0].kind != "ident" or toks[i - 2].kind not in ("ident", "num"):
                         continue
                     start = s0
                     recv = body[toks[s0].start:toks[i - 2].end]
